@@ -364,8 +364,21 @@ def u_check_flows(W, sk):
                 anyterm[fl.name] = symnp.sym_any(fl.values < -tol)
     exc0 = list(exc)
     flows0, procs0 = list(mfa.flows.keys()), list(mfa.processes.keys())
-    out = W.call(lambda: mfa.check_flows(exceptions=exc, raise_error=False), stubs=stubs)
+    # (the verbose listing of the offending labels is exercised on concrete systems only: it builds text)
+    verbose = (not W.symbolic) and W.rng.random() < 0.5
+    out = W.call(lambda: mfa.check_flows(exceptions=exc, raise_error=False, verbose=verbose), stubs=stubs)
     W.prove("check_flows.returns", out.kind == "return", detail=repr(out))
+    if verbose:
+        import numpy as _np
+
+        for fl, a, b in S.flow_list:
+            if fl.name in exc or a in exc or b in exc:
+                continue
+            mine = [str(m) for m in msgs if fl.name in str(m) and "Negative" in str(m)]
+            neg = [idx for idx in _np.ndindex(*fl.values.shape) if fl.values[idx] < -tol] if fl.values.ndim else []
+            if mine and neg:
+                listed = all(", ".join(str(d.items[i]) for d, i in zip(fl.dims.dim_list, idx)) in mine[0] for idx in neg)
+                W.prove(f"check_flows[{fl.name}].verbose_lists_the_labels_of_every_offending_entry", listed and mine[0].count("\n  ") == len(neg), detail=mine[0][:300])
     W.prove("check_flows.exceptions_list_unchanged", exc == exc0, kind="frame", detail=str(exc))
     W.prove("check_flows.system_tables_unchanged", list(mfa.flows.keys()) == flows0 and list(mfa.processes.keys()) == procs0, kind="frame")
     for fl, a, b in S.flow_list:
@@ -437,3 +450,27 @@ def u_mustfail_system(W, sk):
         return
     S.stock_list = []  # wrong specification: stocks do not count
     SL.check_same_array(W, "mf.balance[A](wrong: without the stock change)", Outcome("return", out.value["A"]), S.balance_spec("A"), require_fresh=False)
+
+
+@unit(
+    "system.get_new_array",
+    props=["C13", "C15"],
+    targets=["flodym.mfa_system.MFASystem.get_new_array", "flodym.dimensions.DimensionSet.get_subset"],
+    skeletons=lambda tier: [{"graph": "chain", "letters": l} for l in (None, "t", "te", "et", "r", "ter", "rte", "x")],
+    note="a new array over a selection of the system's dimensions (in the requested order; all of them by default): well-formed, all zeros, own dimension set; an unknown letter is refused; the system's dimension set is unchanged",
+)
+def u_get_new_array(W, sk):
+    S = System(W, sk["graph"])
+    mfa = S.mfa
+    dl = list(mfa.dims.dim_list)
+    letters = sk["letters"]
+    out = W.call(lambda: mfa.get_new_array(tuple(letters) if letters is not None else None))
+    if letters == "x":
+        SL.check_raises(W, "get_new_array(unknown letter)", out, KeyError)
+    else:
+        want = [S.D[l] for l in (letters if letters is not None else "ter")]
+        exp = SL.const(W, want, 0)
+        SL.check_same_array(W, "get_new_array", out, exp)
+        if out.kind == "return":
+            W.prove("get_new_array.own_dimension_set", out.value.dims is not mfa.dims and out.value.dims.dim_list is not mfa.dims.dim_list, kind="ownership")
+    W.prove("get_new_array.system_dims_unchanged", len(mfa.dims.dim_list) == len(dl) and all(a is b for a, b in zip(mfa.dims.dim_list, dl)), kind="frame")
